@@ -24,7 +24,11 @@ class C18(Check):
                          "action_targets_subset_allowed", "lookup_by_name_allowed", "model_lookup_meets_spec",
                          "modify_changes_subset_allowed", "bare_check_grants_only_with_match",
                          "create_grant_partial", "create_ignores_filter_counterexample",
-                         "entry_point_permissions_match_source"]
+                         "entry_point_permissions_match_source",
+                         "raw_mask_match_spec", "permission_pattern_spec", "has_permission_iff_pattern_denotes",
+                         "every_url_handler_checks_its_permission", "model_request_meets_spec", "model_trace_meets_spec",
+                         "delete_without_cascade_gone_allowed", "secondary_objects_partial", "secondary_objects_counterexample",
+                         "connection_user_only_with_verified_cn"]
     technique = ("Lean 4 proof (decision logic stated outright: every object returned on every addressing path satisfies Allowed; "
                  "rejection before any provider call; forbidden name => error; matcher = declarative wildcard language) over a hand-written "
                  "model of FilterUtility::HasPermission/GetFilterTargets; correspondence by differential execution of the real functions "
@@ -39,7 +43,21 @@ class C18(Check):
                   "and allowed under objects/query/<Type>), for bare permission checks (200 only with a matching entry), joined objects and "
                   "authentication. Object creation: proved for users whose entries matching objects/create/<Type> carry no filter "
                   "(create_grant_partial); with a filter the code as it is violates the statement (create_ignores_filter_counterexample, finding "
-                  "F-C18b). The model is tied to the code by running the real FilterUtility::HasPermission (all pattern/text pairs up to length 3 "
+                  "F-C18b). Round 4: whole-trace theorem model_trace_meets_spec - for every initial user and inventory and every sequence of "
+                  "requests of every entry point (GetFilterTargets, object handlers, actions of any type list, objects changed by modify, "
+                  "execute-command's lookup, joins, per-object decisions, bare checks) interleaved with arbitrary changes of the user's "
+                  "permission list and of the registry, every answer satisfies the specification with respect to the user and inventory as "
+                  "they are when the request arrives; the matcher is specified down to the RAW pattern (raw_mask_match_spec: escapes \\* and "
+                  "\\?, a lone backslash, case) and HasPermission is characterised by it (has_permission_iff_pattern_denotes); "
+                  "every_url_handler_checks_its_permission: in the table regenerated from /repo/lib on every run every Handle* method of every "
+                  "class registered with REGISTER_URLHANDLER that handles a request itself contains a permission check (InfoHandler excepted), "
+                  "none asks for the empty permission and each handler class asks for the permission the model assumes for it (also the handlers "
+                  "the harness cannot drive: events, config stages/files, DELETE of config packages). Secondary objects: on inventories created "
+                  "THROUGH THE API (ConfigObjectUtility::CreateObject) DELETE really deletes (with and without cascade) and the real "
+                  "schedule-downtime callback runs with all_services; observed is which objects of the whole inventory are gone / have a "
+                  "downtime. Proved: without cascade only allowed, registered objects go (delete_without_cascade_gone_allowed); with cascade / "
+                  "all_services the statement holds exactly when the dependents of allowed objects are allowed (secondary_objects_partial) and "
+                  "the code as it is violates it otherwise (secondary_objects_counterexample, finding F-C18c). The model is tied to the code by running the real FilterUtility::HasPermission (all pattern/text pairs up to length 3 "
                   "(4 thorough) over a 5-letter alphabet plus random permission-shaped pairs), GetFilterTargets (random users x inventories x "
                   "queries of every shape, each with the default and with a logging provider), HasPermission+EvaluateFilter per object, "
                   "ApiActions::GetSingleObjectByNameUsingPermissions, and whole requests through HttpHandler::ProcessRequest: object "
@@ -51,20 +69,25 @@ class C18(Check):
     level_note = ("Negative controls: see NEGATIVE_CONTROLS in checks/c18.py and corpus/C18/negative_controls/*.diff (refactoring, message "
                   "texts, iteration order / OR order / bookkeeping, guard spellings, translator inputs) - none is reported. Known finding F-C18b "
                   "(classifier create_ignores_filter: clause created_object_is_allowed, creation through entries that ALL carry a filter none of "
-                  "which is true of the new object; a creation without a matching entry is a different clause and stays reported). Trusted: Lean "
+                  "which is true of the new object; a creation without a matching entry is a different clause and stays reported). Known finding F-C18c "
+                  "(classifier secondary_unfiltered: clause secondary_objects_allowed, raised only for a forbidden DEPENDENT of a target - a "
+                  "service of a target host deleted by cascade or given a downtime by all_services; a forbidden target or an object unrelated "
+                  "to the targets is changed_objects_allowed and stays reported). Trusted: Lean "
                   "kernel (+ propext, Classical.choice, Quot.sound); the model's correspondence being sampled; harness/driver; the "
                   "harness's own evaluation of the generated filter expressions (truth tables are oracle inputs, also for the created object). "
                   "Not modelled: the DSL evaluating the filters, HTTP parsing, TLS/certificate verification and Base64 decoding (OpenSSL; the "
                   "decoder's answer is an oracle input of ApiUser::GetByAuthHeader's model; question Q-C18b: an empty certificate CN equals the "
                   "client_cn of every user that has none, GetByClientCN(\"\") returns such a user - whether a verified certificate can carry an "
-                  "empty CN is outside the model), HttpServerConnection's choice between certificate and header; the events handler (it streams "
+                  "empty CN is outside the model), HttpServerConnection's message loop (that a connection's certificate user takes precedence over an Authorization header and that "
+                  "a request without any user is answered 401: httpserverconnection.cpp:510-541; the CONSTRUCTOR's rule - a user only for a "
+                  "verified certificate - is modelled, proved (connection_user_only_with_verified_cn) and driven, op V); the events handler (it streams "
                   "until the client disconnects), config stages/files and the DELETE/POST variants of config packages beyond package creation "
                   "(their permission strings are in the generated table); for templates/variables/types/status only grant/refusal is compared "
                   "(their targets are not config objects); for the actions other than reschedule-check/remove-acknowledgement the registered "
                   "callback is NOT executed (the handler's target list is observed, not the action's own effects): secondary objects of "
-                  "schedule-downtime (all_services, child_options), remove-comment/-downtime on Comment/Downtime objects and the five lookups "
-                  "inside ExecuteCommand are covered only through the shared lookup function, which is driven directly; cascade delete of "
-                  "API-created objects is not driven.")
+                  "schedule-downtime through child_options (all_services IS driven, round 4), remove-comment/-downtime on Comment/Downtime objects and the five lookups "
+                  "inside ExecuteCommand are covered only through the shared lookup function, which is driven directly; cascade delete is driven for hosts with services "
+                  "(round 4); dependents of other kinds (notifications, dependencies, downtimes, comments) are not in the inventory.")
     trusted_base = [
         "modelled, not verified: FilterUtility::HasPermission/CheckPermission/GetFilterTargets and EvaluateFilter's null-filter rule; "
         "permission and user filters are abstract predicates whose truth tables are computed by the harness independently of FilterUtility; "
@@ -73,6 +96,10 @@ class C18(Check):
         "applying attributes to exactly the returned objects, ApiActions::GetSingleObjectByNameUsingPermissions, CreateObjectHandler's bare "
         "CheckPermission, the bare checks of console/config/debug/typeless actions; the harness replaces the registered ApiAction callbacks "
         "by recording wrappers (ApiAction::Register) and reaches the private lookup function through explicit template instantiation",
+        "translator gen/c18_permissions.py (regular expressions + brace matching over /repo/lib, literals and comments blanked): finds the "
+        "REGISTER_URLHANDLER classes, their Handle* method bodies (out-of-class and in-class definitions) and the permission expressions "
+        "checked inside; a check reached only through a helper function outside the Handle* methods is not seen (the theorem then fails: "
+        "alarm, not silence); the ORDER of check and first side effect inside a body is not analysed",
         "third-party/mmatch match() is modelled by its input/output relation (recursive matcher proved equal to the declarative wildcard "
         "language), tied to the C function by exhaustive small and random permission-shaped pattern/text pairs through HasPermission",
     ]
@@ -167,7 +194,7 @@ class C18(Check):
         """(header, ops) of the case a driver message refers to; M lines (before the first case) stand alone."""
         n, k = int(kv["line"]), int(kv["case"])
         line = self._line(save, n)
-        if line[:2] in ("B ", "N "):
+        if line[:2] in ("B ", "N ", "V "):
             # an authentication query stands with the user inventory (nearest preceding K line)
             hdr = ""
             with open(save) as f:
@@ -288,6 +315,8 @@ class C18(Check):
         objects/create/Host, EVERY matching entry carries a filter, and none of these filters is true of the new object.
         A creation without any matching entry (no_permission_rejects_first), a creation next to an unfiltered or a
         satisfied entry (impossible to flag) and every other clause stay reported."""
+        if entry.get("classifier") == "secondary_unfiltered":
+            return self._matches_secondary(finding)
         if entry.get("classifier") != "create_ignores_filter" or finding.kind != "spec":
             return False
         if finding.classifier_data.get("clause") != "created_object_is_allowed":
@@ -320,9 +349,47 @@ class C18(Check):
         except (ValueError, IndexError, KeyError):
             return False
 
+    @staticmethod
+    def _matches_secondary(finding):
+        """F-C18c (classifier secondary_unfiltered), narrow: the clause is secondary_objects_allowed (the spec raises it only for
+        a forbidden object that is a dependent of a target and not a target itself; a forbidden target or an unrelated object
+        is changed_objects_allowed and stays reported), the minimised case works on an API-created inventory and consists of C, P
+        and the two request kinds that have secondary objects (DELETE with cascade=1, schedule-downtime with all_services=1)
+        only, and in at least one of them every object acted on beyond the handler's targets is a service of a host that IS a
+        target."""
+        if finding.kind != "spec" or finding.classifier_data.get("clause") != "secondary_objects_allowed":
+            return False
+        try:
+            api = hit = False
+            for l in finding.case_lines:
+                w = l.split(" | ")[0].split()
+                if not w or w[0].startswith("#"):
+                    continue
+                if w[0] == "C":
+                    api = len(w) == 3 and w[2] == "api"
+                elif w[0] == "P":
+                    continue
+                elif w[0] == "H" and api and ((w[1] == "d" and "cs=1" in w[3:]) or (w[1] == "a:schedule-downtime" and "as=1" in w[3:])):
+                    if " | " not in l:
+                        continue
+                    post = l.split(" | ")[1].split()
+                    obs = dict(t.split("=", 1) for t in post[2:] if "=" in t)
+                    targets = set() if post[1] == "-" else set(post[1].split(","))
+                    acted = obs.get("gone" if w[1] == "d" else "dt", "-")
+                    acted = set() if acted == "-" else set(acted.split(","))
+                    extra = acted - targets
+                    if extra and all(o.startswith("Service/") and "!" in o and ("Host/" + o[len("Service/"):].split("!")[0]) in targets
+                                     for o in extra):
+                        hit = True
+                else:
+                    return False
+            return hit
+        except (ValueError, IndexError, KeyError):
+            return False
+
     def replay(self, path, harness, driver):
         data = json.load(open(path))
-        lines = [l for l in data.get("case", []) if l[:2] in ("C ", "P ", "Q ", "A ", "M ", "H ", "G ", "K ", "B ", "N ", "X ")]
+        lines = [l for l in data.get("case", []) if l[:2] in ("C ", "P ", "Q ", "A ", "M ", "H ", "G ", "K ", "B ", "N ", "X ", "V ")]
         f = self.work("replay.ops")
         with open(f, "w") as fh:
             fh.write("\n".join(runner.strip_obs(l) for l in lines) + "\n")
